@@ -12,7 +12,10 @@ Record insn : Type := mkinsn {
   iid : nat;            (* identity of the insn object *)
   is_label : bool;      (* MIR_LABEL *)
   payload : Z;          (* opcode and non-label operands, abstractly *)
-  refs : list nat       (* label operands: identities of LABEL insns *)
+  refs : list nat;      (* label operands: identities of LABEL insns *)
+  idata : bool          (* insn->data != NULL: scratch pointer of whoever is working on the function
+                           (label -> func in link_module_lrefs, label -> copy in duplication / inlining,
+                           insn -> icode index in the interpreter, insn -> bb_insn in the generator) *)
 }.
 
 Record lref : Type := mklref {
@@ -55,16 +58,22 @@ Definition map_label (m : list (nat * nat)) (x : nat) : nat :=
 Fixpoint copy_insns (m : list (nat * nat)) (l : list insn) (base : nat) : list insn :=
   match l with
   | [] => []
-  | i :: r => mkinsn base (is_label i) (payload i) (map (map_label m) (refs i)) :: copy_insns m r (S base)
+  | i :: r => mkinsn base (is_label i) (payload i) (map (map_label m) (refs i)) (idata i)   (* memcpy *)
+              :: copy_insns m r (S base)
   end.
 
 Definition dup_lref (m : list (nat * nat)) (l : lref) : lref :=
   mklref (map_label m (l_label l)) (option_map (map_label m) (l_label2 l))
          (Some (l_label l)) (Some (l_label2 l)).
 
+(* store_labels_for_duplication sets label->data = copy (mir_assert (insn->data == NULL) first), and
+   redirect_duplicated_labels resets it to NULL: whatever a label's data was, it is NULL afterwards *)
+Definition clear_label_data (i : insn) : insn :=
+  if is_label i then mkinsn (iid i) true (payload i) (refs i) false else i.
+
 Definition dup (f : func) : func :=
   let m := label_map (insns f) (next_id f) in
-  mkfunc (copy_insns m (insns f) (next_id f)) (insns f) (vars f) (length (vars f)) (gvars f) (regtab f)
+  mkfunc (copy_insns m (insns f) (next_id f)) (map clear_label_data (insns f)) (vars f) (length (vars f)) (gvars f) (regtab f)
          (map (dup_lref m) (lrefs f)) (next_id f + length (insns f)) (machine_code f) (call_addr f)
          (faddr f).
 
@@ -78,6 +87,7 @@ Inductive edit : Type :=
 | ERemove (pos : nat)                                        (* MIR_remove_insn / gen_delete_insn *)
 | ERewrite (pos : nat) (pl : Z) (rs : list nat)              (* operands/opcode changed in place *)
 | EMove (from to : nat)                                      (* unlink and relink the same object *)
+| EData (pos : nat) (b : bool)                               (* insn->data of a working insn set / cleared *)
 | EAddVar (name : Z)                                         (* new temp register *)
 | ERetarget (k : nat) (lab : nat) (lab2 : option nat).       (* lref k now denotes other labels *)
 
@@ -113,10 +123,12 @@ Definition new_reg_num (f : func) : nat := length (vars f) + 1 + length (gvars f
 Definition apply_edit (f : func) (e : edit) : func :=
   match e with
   | EInsert pos lab pl rs =>
-    with_insns f (insert_at (insns f) pos (mkinsn (next_id f) lab pl rs)) (S (next_id f))
+    with_insns f (insert_at (insns f) pos (mkinsn (next_id f) lab pl rs false)) (S (next_id f))
   | ERemove pos => with_insns f (remove_at (insns f) pos) (next_id f)
   | ERewrite pos pl rs =>
-    with_insns f (update_at (insns f) pos (fun i => mkinsn (iid i) (is_label i) pl rs)) (next_id f)
+    with_insns f (update_at (insns f) pos (fun i => mkinsn (iid i) (is_label i) pl rs (idata i))) (next_id f)
+  | EData pos b =>
+    with_insns f (update_at (insns f) pos (fun i => mkinsn (iid i) (is_label i) (payload i) (refs i) b)) (next_id f)
   | EMove from to =>
     match nth_error (insns f) from with
     | Some i => with_insns f (insert_at (remove_at (insns f) from) to i) (next_id f)
@@ -196,6 +208,26 @@ Definition gen_at (p : list func) (k : nat) (s : list edit) (code : Z) : list fu
   | None => p
   end.
 
+(* ------------------------------------------------------------------ the interpreter's use of insn->data *)
+(* generate_icode (mir-interp.c:176-524): insn->data = index of the insn's code for EVERY insn while the
+   code is built (branches and lrefs are patched through label->data), and -- since /repo e40fd49f --
+   NULL again for every insn when it is done.  finish_func_interpretation (mir-interp.c:526-534) clears
+   them too. *)
+Definition set_data (b : bool) (i : insn) : insn := mkinsn (iid i) (is_label i) (payload i) (refs i) b.
+Definition with_data (b : bool) (f : func) : func := with_insns f (map (set_data b) (insns f)) (next_id f).
+Definition icode_mark (f : func) : func := with_data true f.      (* the loop building the code *)
+Definition icode_clear (f : func) : func := with_data false f.    (* the loop at its end *)
+Definition icode_prepare (f : func) : func := icode_clear (icode_mark f).
+Definition finish_interp (f : func) : func := with_data false f.
+
+Definition clean (l : list insn) : Prop := forall i, In i l -> idata i = false.
+Definition clean_b (l : list insn) : bool := forallb (fun i => negb (idata i)) l.
+
+(* MIR_link's inliner: MIR_copy_insn of every insn of the callee (store_labels_for_duplication /
+   redirect_duplicated_labels as in dup), appended to the caller with new identities *)
+Definition inline_copy (callee : func) (base : nat) : list insn :=
+  copy_insns (label_map (insns callee) base) (insns callee) base.
+
 (* ------------------------------------------------------------------ well-formedness *)
 
 Definition label_ids (l : list insn) : list nat := map iid (filter is_label l).
@@ -210,6 +242,7 @@ Definition wf (f : func) : Prop :=
         In (l_label l) (label_ids (insns f))
         /\ (forall x, l_label2 l = Some x -> In x (label_ids (insns f)))
         /\ l_orig l = None /\ l_orig2 l = None)
+  /\ (forall i, In i (insns f) -> is_label i = true -> idata i = false)   (* mir_assert in store_labels_... *)
   /\ NoDup (reg_names f)
   /\ (forall v, In v (vars f) -> In v (reg_names f))
   /\ NoDup (map snd (regtab f))
